@@ -62,7 +62,16 @@ func (node *Node) resolveInputs(fork ForkId, keepSplit bool) ([]string, Marshale
 	result := make(MarshalerMap, len(node.call.ResolvedInputs()))
 	var errs syntax.ErrorList
 	var mapped []string
-	for k, v := range node.call.ResolvedInputs() {
+	// Resolve the parameters in sorted order, so that the order of the
+	// reported errors is repeatable.
+	inputs := node.call.ResolvedInputs()
+	params := make([]string, 0, len(inputs))
+	for k := range inputs {
+		params = append(params, k)
+	}
+	sort.Strings(params)
+	for _, k := range params {
+		v := inputs[k]
 		_, r, err := node.top.resolve(v.Exp, v.Type, fork, readSize)
 		if err != nil {
 			if keepSplit {
